@@ -43,8 +43,10 @@ def sh(cmd, cwd=None, env=None, timeout=None, input=None):
 
 class Lock:
     def __init__(self, name):
-        os.makedirs(BUILD, exist_ok=True)
-        self.path = os.path.join(BUILD, name + ".lock")
+        # one lock for the whole /verif tree whatever VERIF_BUILD says: the Coq sources and Gen/ files are shared
+        d = os.path.join(VERIF, ".build")
+        os.makedirs(d, exist_ok=True)
+        self.path = os.path.join(d, name + ".lock")
 
     def __enter__(self):
         self.f = open(self.path, "w")
